@@ -431,14 +431,24 @@ func (b *builder) fill(v reflect.Value, raw json.RawMessage) error {
 		if err := json.Unmarshal(raw, &d); err != nil {
 			return err
 		}
-		for name, fr := range d {
-			f := v.FieldByName(name)
-			if !f.IsValid() || !f.CanSet() {
-				return fmt.Errorf("no settable field %s in %s", name, t)
+		// fields in declaration order (the generator defines pointer ids in that order)
+		for i := 0; i < t.NumField(); i++ {
+			name := t.Field(i).Name
+			fr, ok := d[name]
+			if !ok {
+				continue
+			}
+			f := v.Field(i)
+			if !f.CanSet() {
+				return fmt.Errorf("field %s of %s is not settable", name, t)
 			}
 			if err := b.fill(f, fr); err != nil {
 				return err
 			}
+			delete(d, name)
+		}
+		for name := range d {
+			return fmt.Errorf("no field %s in %s", name, t)
 		}
 	default:
 		return fmt.Errorf("cannot build %s", t)
